@@ -332,6 +332,24 @@ pub fn run_local(tier: &str, seed: i64) -> (Acc, Vec<SpaceReport>, usize) {
             check_string(&s, acc);
             acc.count("truncations");
         }
+        // move counters: every all-digit halfmove clock / fullmove number a game can reach (and a little beyond) is
+        // well-formed; the position must be imported whatever they say
+        if form == "4-field" {
+            const HALF: [u32; 17] = [0, 1, 2, 9, 10, 49, 50, 99, 100, 101, 149, 150, 255, 256, 999, 1000, 9999];
+            const FULL: [u32; 19] = [1, 2, 9, 10, 99, 100, 127, 128, 199, 200, 201, 255, 256, 257, 300, 999, 1000, 5949, 9999];
+            for h in HALF {
+                check_string(&format!("{} {}", base, h), acc);
+                acc.count("move-counter variants");
+                for f in FULL {
+                    let s = format!("{} {} {}", base, h, f);
+                    check_string(&s, acc);
+                    acc.count("move-counter variants");
+                    if cfg!(debug_assertions) && (h as usize + f as usize + i) % 41 == 0 {
+                        check_string_uci(&s, acc);
+                    }
+                }
+            }
+        }
         if i % 4 == 0 && form == "6-field" {
             for s in edits_2_board(base) {
                 check_string(&s, acc);
@@ -352,7 +370,7 @@ pub fn run_local(tier: &str, seed: i64) -> (Acc, Vec<SpaceReport>, usize) {
             acc.sample(json::obj(vec![("base", json::s(base.clone())), ("form", json::s(form.clone())), ("neighbour_examples", json::strs(&edits_1(base, four_fields_len).iter().step_by(601).take(6).cloned().collect::<Vec<_>>()))]));
         }
     });
-    (acc, vec![SpaceReport { name: format!("base FENs ({} flavour)", flavour()), states: nb as u64, exhaustive: true, note: "complete 1-edit neighbourhood over the 39-symbol alphabet within fields 1-4, all truncations, 2-edit digit/slash neighbourhood for every 4th 6-field base".into() }], nb)
+    (acc, vec![SpaceReport { name: format!("base FENs ({} flavour)", flavour()), states: nb as u64, exhaustive: true, note: "complete 1-edit neighbourhood over the 39-symbol alphabet within fields 1-4, all truncations, 2-edit digit/slash neighbourhood for every 4th 6-field base, 17 x 19 grid of halfmove/fullmove counters (0..9999) on every base".into() }], nb)
 }
 
 pub fn run(tier: &str, seed: i64) -> Outcome {
